@@ -148,3 +148,8 @@ func TestMain(m *testing.M) {
 // os_only_regress reports whether only the regression phase is wanted (replay of a
 // recorded finding).
 func os_only_regress() bool { return os.Getenv("VERIF_ONLY_REGRESS") == "1" }
+
+func envInt(name string) int {
+	v, _ := strconv.Atoi(os.Getenv(name))
+	return v
+}
